@@ -511,6 +511,58 @@ func genAbort(g *lp.Gen, cid int) {
 	}
 }
 
+// genPool: an op sequence for the pool bookkeeping; the generator keeps its own rough picture of who is busy so that
+// most releases are valid (invalid ones are refused on both sides)
+func genPool(g *lp.Gen) {
+	max := 1 + g.Intn(3)
+	withTimeout := g.Chance(1, 4)
+	tmo := 20000
+	if withTimeout {
+		tmo = 250
+	}
+	g.P("C pool max=%d timeout=%d", max, tmo)
+	count, idle, busy, waiting := 0, []int{}, []int{}, 0
+	n := 6 + g.Intn(20)
+	for i := 0; i < n; i++ {
+		switch x := g.Intn(10); {
+		case x < 4 && (!withTimeout || waiting == 0):
+			g.P("G")
+			if len(idle) > 0 {
+				busy = append(busy, idle[0])
+				idle = idle[1:]
+			} else if count < max {
+				busy = append(busy, count)
+				count++
+			} else {
+				waiting++
+			}
+		case x < 7 && len(busy) > 0:
+			k := g.Intn(len(busy))
+			c := busy[k]
+			g.P("R %d", c)
+			if waiting > 0 {
+				waiting--
+			} else {
+				busy = append(busy[:k], busy[k+1:]...)
+				idle = append(idle, c)
+			}
+		case x < 8 && count > 0:
+			g.P("X %d", g.Intn(count+1)) // now and then an unknown conn
+		case x < 9 && withTimeout && waiting > 0:
+			g.P("T")
+			waiting--
+		case x == 9 && g.Chance(1, 6):
+			g.P("R %d", g.Intn(max+1)) // possibly a conn that is not in use: refused
+		default:
+			g.P("S")
+		}
+	}
+	if withTimeout && waiting > 0 {
+		g.P("T")
+	}
+	g.P("S")
+}
+
 func gen(g *lp.Gen) {
 	thorough := g.Tier == "thorough"
 	seed := int(g.Rng.Int63()) // consume one value so streams differ per shard even for n=0
@@ -529,6 +581,7 @@ func gen(g *lp.Gen) {
 	off := g.Intn(len(cells))
 	cid := 0
 	for cs := 0; cs < g.N; cs++ {
+		genPool(g) // cheap (in-process, no network): one bookkeeping case in front of every network case
 		c := cells[(cs+off)%len(cells)]
 		ep := c.epoll
 		// (AsyncReadInPoller variants "eta"/"osa" are understood by exec but not generated: with the default
@@ -1192,7 +1245,7 @@ func (s *server) runRaw(h *hist) {
 				// connection for a closing request while this response was still (partly) in its write queue
 				c := h.closingAtOrAfter(i)
 				h.cut = i
-				h.fail(false, "c10-order", "close-with-backlog: response to request %d broke off after %d of %d body bytes: the connection was closed for closing request %d while response bytes were still queued",
+				h.fail(false, "c10-order", "class=close-with-backlog response to request %d broke off after %d of %d body bytes: the connection was closed for closing request %d while response bytes were still queued",
 					r.rid, len(body), r.sz, h.reqs[c].rid)
 			default:
 				h.fail(false, "c10-order", "response to request %d broke off: %v (%d of %d body bytes read)", r.rid, err, len(body), r.sz)
@@ -1976,7 +2029,177 @@ func sizeClass(n int) string {
 	}
 }
 
+// ---------------------------------------------------------------- pool bookkeeping case (model ClientPool)
+//
+//	C pool max=<m> timeout=<ms>
+//	G          a request enters getConn            -> got c=<id> new=<0|1> reset=<0|1> | blocked r=<request>
+//	R <c>      the callback on ClientConn c runs   -> ok handoff=<request>:<c>:<reset>|- | bad-release
+//	X <c>      ClientConn c is marked closed       -> ok | bad-conn
+//	T          the oldest blocked request times out-> timeout r=<request> | none
+//	S          observation                         -> state count=<n> idle=<n> busy=<sorted ids> waiting=<requests>
+//
+// Sequential in-process drive of the real hostConns through the hook nbhttp.VerifPool (no network).
+
+type poolGet struct {
+	r     int
+	done  chan struct{}
+	hc    *nbhttp.ClientConn
+	reset bool
+	err   error
+}
+
+func runPoolCase(e *lp.Exec, lines []string) {
+	f0 := strings.Fields(lines[0])
+	max, tmo := kvi(f0, "max"), kvi(f0, "timeout")
+	if max <= 0 || tmo <= 0 {
+		for _, l := range lines {
+			e.P("> %s", l)
+			e.P("bad-op")
+		}
+		return
+	}
+	pool := nbhttp.VerifNewPool(int32(max), time.Duration(tmo)*time.Millisecond)
+	ids := map[*nbhttp.ClientConn]int{}
+	var byID []*nbhttp.ClientConn
+	busy := map[int]bool{}
+	var waiting []*poolGet
+	nreq := 0
+	settle := 40 * time.Millisecond
+	idOf := func(hc *nbhttp.ClientConn) (int, int) {
+		if id, ok := ids[hc]; ok {
+			return id, 0
+		}
+		ids[hc] = len(byID)
+		byID = append(byID, hc)
+		return len(byID) - 1, 1
+	}
+	b2i := func(b bool) int {
+		if b {
+			return 1
+		}
+		return 0
+	}
+	e.P("> %s", lines[0])
+	e.P("ok")
+	var key strings.Builder
+	fmt.Fprintf(&key, "pool/%d|", max)
+	for _, line := range lines[1:] {
+		f := strings.Fields(line)
+		e.P("> %s", line)
+		key.WriteString(f[0])
+		switch f[0] {
+		case "G":
+			g := &poolGet{r: nreq, done: make(chan struct{})}
+			nreq++
+			go func() { g.hc, g.reset, g.err = pool.Get(); close(g.done) }()
+			select {
+			case <-g.done:
+				if g.err != nil {
+					e.P("error %v", g.err)
+					continue
+				}
+				id, isNew := idOf(g.hc)
+				if busy[id] {
+					e.Oracle("c10-client-pool", "ClientConn %d handed to request %d while it is still in use", id, g.r)
+				}
+				busy[id] = true
+				e.P("got c=%d new=%d reset=%d", id, isNew, b2i(g.reset))
+			case <-time.After(settle):
+				waiting = append(waiting, g)
+				e.P("blocked r=%d", g.r)
+			}
+		case "R":
+			id, _ := strconv.Atoi(f[1])
+			if id < 0 || id >= len(byID) || !busy[id] {
+				e.P("bad-release")
+				continue
+			}
+			delete(busy, id)
+			pool.Release(byID[id])
+			if len(waiting) == 0 {
+				e.P("ok handoff=-")
+				continue
+			}
+			w := waiting[0]
+			select {
+			case <-w.done:
+				waiting = waiting[1:]
+				if w.err != nil {
+					e.P("ok handoff=error:%v", w.err)
+					continue
+				}
+				wid, _ := idOf(w.hc)
+				if busy[wid] {
+					e.Oracle("c10-client-pool", "ClientConn %d handed to request %d while it is still in use", wid, w.r)
+				}
+				busy[wid] = true
+				e.P("ok handoff=%d:%d:%d", w.r, wid, b2i(w.reset))
+			case <-time.After(2 * time.Second):
+				e.Oracle("c10-client-pool", "request %d still blocked 2 s after ClientConn %d was released", w.r, id)
+				e.P("ok handoff=stuck")
+			}
+		case "X":
+			id, _ := strconv.Atoi(f[1])
+			if id < 0 || id >= len(byID) {
+				e.P("bad-conn")
+				continue
+			}
+			pool.MarkClosed(byID[id])
+			e.P("ok")
+		case "T":
+			if len(waiting) == 0 {
+				e.P("none")
+				continue
+			}
+			w := waiting[0]
+			select {
+			case <-w.done:
+				waiting = waiting[1:]
+				if w.err != nil {
+					e.P("timeout r=%d", w.r)
+				} else {
+					e.P("unexpected-conn r=%d", w.r)
+				}
+			case <-time.After(time.Duration(tmo)*time.Millisecond + 2*time.Second):
+				e.Oracle("c10-client-pool", "blocked request %d did not time out", w.r)
+				e.P("stuck r=%d", w.r)
+			}
+		case "S":
+			cn, free, conns := pool.State()
+			var bs []int
+			for id := range busy {
+				bs = append(bs, id)
+			}
+			sort.Ints(bs)
+			var ws []string
+			for _, w := range waiting {
+				ws = append(ws, strconv.Itoa(w.r))
+			}
+			if cn > max || free+len(bs) != cn || conns != cn {
+				e.Oracle("c10-client-pool", "bookkeeping broken: connNum=%d max=%d free=%d in use=%d conns map=%d", cn, max, free, len(bs), conns)
+			}
+			e.P("state count=%d idle=%d busy=%s waiting=%s", cn, free, joinInts(bs), strings.Join(append(ws, "-"), ","))
+		default:
+			e.P("bad-op")
+		}
+	}
+	e.Count("cells", "pool")
+	e.Key(key.String(), len(lines) > 6)
+}
+
+func joinInts(xs []int) string {
+	ss := []string{"-"}
+	for _, x := range xs {
+		ss = append(ss, strconv.Itoa(x))
+	}
+	return strings.Join(ss, ",")
+}
+
 func runCase(e *lp.Exec, lines []string) {
+	if strings.HasPrefix(lines[0], "C pool ") {
+		runPoolCase(e, lines)
+		return
+	}
 	c, err := parseCase(lines)
 	if err != nil {
 		for _, l := range lines {
@@ -2048,6 +2271,8 @@ func runCase(e *lp.Exec, lines []string) {
 					}
 				}
 				e.P("> %s lost=%s", stripGot(line), strings.Join(append(lost, "-"), ","))
+			} else if h.kind == "raw" && h.cut >= 0 {
+				e.P("> %s cut=%d", stripGot(line), h.cut)
 			} else {
 				e.P("> %s", stripGot(line))
 			}
